@@ -1,6 +1,7 @@
 package checks
 
 import (
+	"bytes"
 	"encoding/json"
 	"fmt"
 	"io"
@@ -15,6 +16,8 @@ import (
 	"sync"
 	"sync/atomic"
 	"time"
+
+	"github.com/charmbracelet/log"
 
 	"github.com/flamego/flamego"
 	"github.com/flamego/flamego/verifharness/core"
@@ -148,6 +151,7 @@ func c05MakeReq(kind, tok string, rng *rand.Rand) c05Req {
 }
 
 type c05Sched struct {
+	log       *c05Log // where the instance logs (nil: discarded)
 	inflight  int64
 	maxIn     int64
 	overlaps  int64
@@ -182,8 +186,24 @@ func (s *c05Sched) perturb(tok string, phase int) {
 	}
 }
 
+// c05Log collects what the request logger writes (goroutine-safe).
+type c05Log struct {
+	mu  sync.Mutex
+	buf bytes.Buffer
+}
+
+func (l *c05Log) Write(p []byte) (int, error) {
+	l.mu.Lock()
+	defer l.mu.Unlock()
+	return l.buf.Write(p)
+}
+
 func buildC05(s *c05Sched) *flamego.Flame {
-	f := flamego.NewWithLogger(io.Discard)
+	var logw io.Writer = io.Discard
+	if s.log != nil {
+		logw = s.log
+	}
+	f := flamego.NewWithLogger(logw)
 	f.Map(&c05Svc{name: "svc"})
 	f.Map(c05Opt{V: "app-default"})
 	f.Use(func(c flamego.Context) {
@@ -199,6 +219,9 @@ func buildC05(s *c05Sched) *flamego.Flame {
 		c.Next()
 	})
 	f.Before(func(http.ResponseWriter, *http.Request) bool { return false })
+	// a request-scoped logger (the usual request-id pattern) is mapped before the request logger runs: every line
+	// the request logger writes for a request carries that request's id
+	f.Use(func(c flamego.Context, l *log.Logger) { c.Map(l.With("rid", c.Request().Header.Get("X-Tok"))) })
 	f.Use(flamego.Logger(), flamego.Recovery(), flamego.Renderer(flamego.RenderOptions{JSONIndent: " "}))
 	f.Use(flamego.Static(flamego.StaticOptions{Directory: c05Dir, Prefix: "assets", SetETag: true, Expires: func() string { return "EXP" }}))
 	f.Use(func(c flamego.Context) {
@@ -302,6 +325,19 @@ func c05Serve(f *flamego.Flame, rq c05Req) c05Resp {
 	return out
 }
 
+// c05Field extracts key=value from a log line ("" if absent).
+func c05Field(line, key string) string {
+	i := strings.Index(line, " "+key+"=")
+	if i < 0 {
+		return ""
+	}
+	v := line[i+len(key)+2:]
+	if j := strings.IndexAny(v, " \t"); j >= 0 {
+		v = v[:j]
+	}
+	return strings.Trim(v, "\"")
+}
+
 // c05Foreign reports a token in the response that is not the request's own.
 func c05Foreign(body, own string) string {
 	for i := 0; i+1 < len(body); i++ {
@@ -372,7 +408,7 @@ func runC05Round(w *core.W, c *c05Round, st *c05Stats, salt uint64) bool {
 		}
 	}
 	// cold instance, concurrent
-	sched := &c05Sched{enabled: true, meet: make(chan struct{}), seed: uint64(w.R.Seed) + salt}
+	sched := &c05Sched{enabled: true, meet: make(chan struct{}), seed: uint64(w.R.Seed) + salt, log: &c05Log{}}
 	cold := buildC05(sched)
 	got := make([]c05Resp, total)
 	var wg sync.WaitGroup
@@ -403,6 +439,23 @@ func runC05Round(w *core.W, c *c05Round, st *c05Stats, salt uint64) bool {
 		st.coldKinds[reqs[i].Kind]++
 	}
 	st.mu.Unlock()
+	// the request logger's lines: the id mapped for the request and the request's own address agree
+	sched.log.mu.Lock()
+	lines := strings.Split(sched.log.buf.String(), "\n")
+	sched.log.mu.Unlock()
+	nLines := 0
+	for _, ln := range lines {
+		rid, remote := c05Field(ln, "rid"), c05Field(ln, "remote")
+		if rid == "" || remote == "" {
+			continue
+		}
+		nLines++
+		if rid != remote {
+			w.Violate("isolation", c, fmt.Sprintf("the request logger wrote a line for the request of %s that carries the request-scoped logger of another request (rid=%s): %q", remote, rid, ln))
+			return false
+		}
+	}
+	w.CountN("request-logger-lines-checked", nLines)
 	for i, rq := range reqs {
 		w.Eval()
 		g := got[i]
@@ -502,7 +555,7 @@ func raceDedupKey(blk string) string {
 }
 
 func runC05(r *core.Run) {
-	r.Rule("per round one COLD instance (lazy caches unfilled) with routes of every kind (static shortcut, optional static short/long, placeholder, multi-bind regex, match-all with capture, final match-all, header-constrained, Any, named route used for URL building, JSON rendering, a panicking route behind Recovery, custom not-found chain) and Logger+Recovery+Renderer middleware; 32-64 goroutines behind a barrier, the first wave hits every route kind while cold, then few hot routes; every request carries a unique token in a path parameter, a header and the body; an early middleware maps a request-scoped value; handlers reached through Next (fast path) and reflectively echo parameters, `route`, the injected value, a built URL and the body, with seeded yields / sleeps / pairwise rendezvous between reading and writing. Oracles: (1) Go race detector, report blocks with a framework frame counted from the log; (2) byte-for-byte equality (status, body, Content-Type, ETag, response tags) with an identically built instance that served the same requests serially, which in turn equals - for the cold wave and every 32nd request - a fresh instance that serves nothing else; (3) no foreign token in any response. non-trivial = distinct concurrent rounds")
+	r.Rule("per round one COLD instance (lazy caches unfilled) with routes of every kind (static shortcut, optional static short/long, placeholder, multi-bind regex, match-all with capture, final match-all, header-constrained, Any, named route used for URL building, JSON rendering, a panicking route behind Recovery, custom not-found chain) and Logger+Recovery+Renderer middleware; 32-64 goroutines behind a barrier, the first wave hits every route kind while cold, then few hot routes; every request carries a unique token in a path parameter, a header and the body; an early middleware maps a request-scoped value; handlers reached through Next (fast path) and reflectively echo parameters, `route`, the injected value, a built URL and the body, with seeded yields / sleeps / pairwise rendezvous between reading and writing. Oracles: (1) Go race detector, report blocks with a framework frame counted from the log; (2) byte-for-byte equality (status, body, Content-Type, ETag, response tags) with an identically built instance that served the same requests serially, which in turn equals - for the cold wave and every 32nd request - a fresh instance that serves nothing else; (3) no foreign token in any response; (4) every line the request logger writes carries the request-scoped logger (request id) of the request it is about. non-trivial = distinct concurrent rounds")
 	r.Assume("happens-before race detection is timing independent for accesses that occur; the shadow history is bounded (4 accesses per word)")
 	r.Race = raceEnabled
 	if !raceEnabled {
@@ -576,6 +629,8 @@ func runC05(r *core.Run) {
 	}
 	r.Gate("overlapping request pairs", st.overlaps, 1000)
 	r.Gate("max in-flight requests", st.maxIn, 8)
+	r.GateCounter("request-logger-lines-checked", int64(rounds)*100)
+	r.GateCounter("compared-with-a-fresh-instance", int64(rounds)*10)
 	for _, k := range c05Kinds {
 		r.Gate("cold first-wave hits:"+k, int64(st.coldKinds[k]), 2*int64(rounds))
 		r.GateCounter("kind:"+k, 1)
